@@ -13,7 +13,7 @@ from eglib.driver import Violation
 from eglib.model import ANY, ERROR, NONNEIGHBOR, ref_neighbors, ref_reach
 
 
-def cases(max_v=8, max_e=14, classes=6, settings=True, big=False):
+def cases(max_v=8, max_e=14, classes=6, settings=True, big=False, scale_rate=None):
     def mk(g, uni, s, d, u, via, res, cache=False, pad=0, swap=None, take=0, none_ends=(), scale=None):
         nv = g["nv"]
         if scale and not g.get("eq"):
@@ -60,7 +60,7 @@ def cases(max_v=8, max_e=14, classes=6, settings=True, big=False):
         st.one_of(st.none(), st.tuples(st.integers(0, 7), st.integers(0, 7))),
         st.integers(0, 4),
         st.one_of(st.just(()), st.just(()), st.lists(st.tuples(st.integers(0, 13), st.integers(0, 1)), min_size=1, max_size=2)),
-        graphs.scales(hubs=(70, 340, 1300) if big else (70, 340), chains=(260, 300), rate=40 if big else 80),
+        graphs.scales(hubs=(70, 340, 1300) if big else (70, 340), chains=(260, 300), rate=scale_rate or (40 if big else 80)),
     )
 
 
